@@ -674,6 +674,9 @@ class Exec:
 
     def assign(self, st, tgt, v, node):
         if isinstance(tgt, ast.Name):
+            h = self.c.get('assign_hook')
+            if h:
+                v = h(self, st, tgt.id, v, node)
             st.env[tgt.id] = v
         elif isinstance(tgt, (ast.Tuple, ast.List)):
             vals = self.iter_concrete(st, v, node) if not isinstance(v, (tuple, list)) else v
